@@ -62,6 +62,9 @@ def obls : TExpr → List Obl
   | .lvar x ty => [.bound x ty]
   | .gvar n ty => [.inst n ty]
   | .err _ => [.bad]
+  -- method callees and array literals: modelled and tied, not yet given a declarative rule (counted as not covered)
+  | .mvar _ _ _ => [.bad]
+  | .array items _ => oblsL items ++ [.bad]
   | .prim _ => []
   | .tuple items ty => oblsL items ++ [.same ty (.tuple (tysOf items))]
   | .closure ps body ty => boundsOf ps ++ obls body ++ [.same ty (.func (sndL ps) body.ty)]
@@ -166,6 +169,7 @@ def justB (cs : List Constraint) (bs : List (Nat × Ty)) (funs : List (String ×
 mutual
 def binders : TExpr → List (Nat × Ty)
   | .tuple items _ => bindersL items
+  | .array items _ => bindersL items
   | .closure ps body _ => ps ++ binders body
   | .letE p _ v => binders v ++ pbinders p
   | .block es _ => bindersL es
